@@ -77,7 +77,7 @@ CHECKS["C10"] = {"text": "Statement fault_safety_stmt (Wal/FaultHist.v): for eve
                  "note": _L2NOTE + " Faults are single transient failures without partial effect; deletions exempt.", "technique": "Rocq proof (partial: local rollback lemmas; full statement tested) + model/implementation correspondence under fault injection", "ref": "DESIGN.md 5 C10"}
 
 CHECKS["C11"] = {
-    "text": "Kernel-checked theorems on the byte-level models: scanning terminates with fuel to spare on every byte string; the only data-dependent allocations (CRC batch buffer, second frame read, dump buffer) are bounded by the file length resp. MaxEntrySize; a sealed file shorter than its header / with damaged magic or version / with another segment's header is refused; every strict prefix of a valid entry encoding and every valid encoding followed by extra bytes decodes to an error; at the WAL level a listed sealed segment that is missing or header-less makes Open fail. The models are tied to the code by the corrupt stream (damaged files: outcome kind and recovered entries equal the model's), the malformed half of the codec stream, and an implementation-only stream (openfail) that damages real directories, requires Open to fail, and requires a second Open in the same process to return and - damage undone - to present the original log.",
+    "text": "Kernel-checked theorems on the byte-level models: scanning terminates with fuel to spare on every byte string; the only data-dependent allocations (CRC batch buffer, second frame read, dump buffer) are bounded by the file length resp. MaxEntrySize; a sealed file shorter than its header / with damaged magic or version / with another segment's header is refused; every strict prefix of a valid entry encoding and every valid encoding followed by extra bytes decodes to an error; at the WAL level a listed sealed segment that is missing or header-less makes Open fail. The models are tied to the code by the corrupt stream (damaged files: outcome kind and recovered entries equal the model's), the dumplogs stream (Filer.DumpLogs over whole directories, partly damaged, compared entry by entry with the model dump_logs, which is a total function with the same allocation bound), the malformed half of the codec stream, and an implementation-only stream (openfail) that damages real directories, requires Open to fail, and requires a second Open in the same process to return and - damage undone - to present the original log.",
     "note": "PARTIAL for the runtime clauses: 'never panics / hangs' and 'allocates within a bound' of the Go code, and 'a failed Open leaves nothing locked or open' (BoltDB flock, OS handles) are observed under a watchdog, not proved. bbolt trusted.",
     "technique": "Rocq proof (termination/fuel, allocation bounds, decoder rejection lemmas) + model/implementation correspondence on damaged inputs + implementation-side watchdog oracles",
     "ref": "DESIGN.md 5 C11, 10 seg",
